@@ -133,6 +133,7 @@ func tvConc(args []string) int {
 	seed := fs.Int64("seed", 1, "")
 	hist := fs.Int("histories", 80, "")
 	out := fs.String("out", "", "")
+	ctl := fs.Int("controlled", 150, "controlled schedules on a cold TypedValue (stopping points: the store's map lock)")
 	_ = fs.Parse(args)
 	f, err := os.Create(*out)
 	if err != nil {
@@ -178,6 +179,66 @@ func tvConc(args []string) int {
 		tvEmit(enc, lg, db, hung)
 	}
 
+	// controlled schedules: a COLD TypedValue (nothing cached) over a store that may already hold the key; every acquisition
+	// of the store's map lock is a stopping point (hook mapdb.VerifHook) and a random parked goroutine is released between
+	// two quiescent points - so one caller can stand between its store access and its cache update (or hold the
+	// TypedValue's own lock while it is parked in the store) while another runs. Afterwards the same (now warm) object is
+	// read: a stale cache shows as a Get/Has that no order of the calls explains.
+	for c := 0; c < *ctl; c++ {
+		lg := &tlog{}
+		db := mapdb.NewMapDB()
+		if rng.Intn(3) > 0 {
+			b := make([]byte, 8)
+			binary.BigEndian.PutUint64(b, 10)
+			_ = db.Set([]byte{7}, b)
+			lg.evs = append(lg.evs, core.Ev{"ev": "inv", "t": 6, "op": "Set", "a": 10}, core.Ev{"ev": "ret", "t": 6, "res": 0})
+		}
+		tv := newTV(db)
+		gate := sched.NewGate()
+		gate.HoldAll()
+		mapdb.VerifHook = func(string) { gate.Wait("lock") }
+		nt := 2 + rng.Intn(2)
+		chs := make([]chan struct{}, nt)
+		var wg sync.WaitGroup
+		for t := 1; t <= nt; t++ {
+			t := t
+			chs[t-1] = make(chan struct{})
+			rg := rand.New(rand.NewSource(rng.Int63()))
+			wg.Add(1)
+			go func() {
+				defer close(chs[t-1])
+				defer wg.Done()
+				for i, n := 0, 1+rg.Intn(2); i < n; i++ {
+					tvCall(lg, tv, t, []string{"Get", "Has", "Get", "Set", "Delete", "Delete", "Inc"}[rg.Intn(7)], t*100+i, nil)
+				}
+			}()
+		}
+		all := make(chan struct{})
+		go func() { wg.Wait(); close(all) }()
+		for step := 0; step < 300; step++ {
+			sched.QuiesceOpt(50*time.Millisecond, 2, false)
+			n := gate.Parked("lock")
+			if n == 0 {
+				select {
+				case <-all:
+					step = 1 << 30
+				default:
+				}
+				continue
+			}
+			gate.ReleaseNth("lock", rng.Intn(n))
+		}
+		gate.ReleaseAll()
+		mapdb.VerifHook = nil
+		hung := tvWait(chs, 3*time.Second)
+		hangs += len(hung)
+		if len(hung) == 0 {
+			tvCall(lg, tv, 1, "Has", 0, nil)
+			tvCall(lg, tv, 1, "Get", 0, nil)
+		}
+		tvEmit(enc, lg, db, hung)
+	}
+
 	for h := 0; h < *hist; h++ {
 		if h%5 == 4 {
 			runtime.GOMAXPROCS(1)
@@ -216,6 +277,6 @@ func tvConc(args []string) int {
 		tvEmit(enc, lg, db, hung)
 	}
 	runtime.GOMAXPROCS(16)
-	fmt.Printf("{\"histories\": %d, \"hangs\": %d}\n", *hist+len(arrivals), hangs)
+	fmt.Printf("{\"histories\": %d, \"hangs\": %d}\n", *hist+len(arrivals)+*ctl, hangs)
 	return 0
 }
